@@ -3,12 +3,14 @@ package scen
 import (
 	"encoding/json"
 	"fmt"
+	"os"
 	"sort"
 	"strings"
 	"time"
 
 	sdk "github.com/cosmos/cosmos-sdk/types"
 	channeltypes "github.com/cosmos/ibc-go/v10/modules/core/04-channel/types"
+	ibckeeper "github.com/cosmos/ibc-go/v10/modules/core/keeper"
 
 	abci "github.com/cometbft/cometbft/abci/types"
 
@@ -119,6 +121,13 @@ func (w *XWorld) Open(n *XNode, cid string) error {
 	n.touchC(cid)
 	p, c := n.P, n.C[cid]
 	pk, ck := w.P.PApp.IBCKeeper, w.CA.CApp.IBCKeeper
+	if NetMode != "shim" {
+		if err := w.openCore(&p, &c, &l); err != nil {
+			return err
+		}
+		n.P, n.C[cid], n.L[cid] = p, c, l
+		return nil
+	}
 	env.OpenConnection(&p, pk, &c, ck, &l)
 	a := ccvArgs(l)
 	if err := env.ChanOpenInit(&c, ck, &l, a); err != nil {
@@ -212,7 +221,7 @@ func (w *XWorld) DeliverP2C(n *XNode, cid string, k int) (delivered []env.Packet
 		if !w.relayable(pk.SentHeight, n.P.Height()) {
 			break
 		}
-		res := env.Recv(&c, w.CA.CApp.IBCKeeper, pk.P)
+		res := w.netRecv(&c, w.CA.CApp.IBCKeeper, &n.P, pk.P)
 		if res.Err != nil {
 			debugOnce("DeliverP2C", res.Err)
 			break
@@ -238,7 +247,8 @@ func (w *XWorld) DeliverC2P(n *XNode, cid string) (*env.Packet, *env.RecvResult)
 	}
 	n.touchP()
 	p := n.P
-	res := env.Recv(&p, w.P.PApp.IBCKeeper, pk.P)
+	cst := n.C[cid]
+	res := w.netRecv(&p, w.P.PApp.IBCKeeper, &cst, pk.P)
 	if res.Err != nil {
 		debugOnce("DeliverC2P", res.Err)
 		return nil, &res
@@ -345,7 +355,7 @@ func (w *XWorld) AckC2P(n *XNode, cid string) (*env.Ack, error, string) {
 	}
 	n.touchC(cid)
 	c := n.C[cid]
-	_, err, pan := env.AckPacket(&c, w.CA.CApp.IBCKeeper, a.P, a.Bytes)
+	_, err, pan := w.netAck(&c, w.CA.CApp.IBCKeeper, &n.P, a.P, a.Bytes)
 	if err != nil || pan != "" {
 		return &a, err, pan
 	}
@@ -363,7 +373,8 @@ func (w *XWorld) AckP2C(n *XNode, cid string) (*env.Ack, error, string) {
 	a := l.P2C.Acks[0]
 	n.touchP()
 	p := n.P
-	_, err, pan := env.AckPacket(&p, w.P.PApp.IBCKeeper, a.P, a.Bytes)
+	cst := n.C[cid]
+	_, err, pan := w.netAck(&p, w.P.PApp.IBCKeeper, &cst, a.P, a.Bytes)
 	if err != nil || pan != "" {
 		return &a, err, pan
 	}
@@ -386,7 +397,7 @@ func (w *XWorld) TimeoutP2C(n *XNode, cid string) (*env.Packet, error, string) {
 	}
 	n.touchP()
 	p := n.P
-	_, err, pan := env.TimeoutPacket(&p, w.P.PApp.IBCKeeper, pk.P)
+	_, err, pan := w.netTimeout(&p, w.P.PApp.IBCKeeper, &c, w.CA.CApp.IBCKeeper, pk.P)
 	if err != nil || pan != "" {
 		return &pk, err, pan
 	}
@@ -408,6 +419,22 @@ func (w *XWorld) OpenTransfer(n *XNode, cid string) error {
 		return fmt.Errorf("consumer has not initiated a transfer channel")
 	}
 	a := env.HandshakeArgs{Order: channeltypes.UNORDERED, Version: "ics20-1", PPort: "transfer", CPort: "transfer", PHops: []string{l.PConn}, CHops: []string{l.CConn}}
+	if NetMode != "shim" {
+		pch, err := env.CoreChanOpenTry(&p, pk, &c, "transfer", "transfer", l.XCChan, channeltypes.UNORDERED, a.PHops, "ics20-1")
+		if err != nil {
+			return fmt.Errorf("transfer try: %w", err)
+		}
+		l.XPChan = pch
+		if err := env.CoreChanOpenAck(&c, ck, &p, "transfer", l.XCChan, pch, "ics20-1"); err != nil {
+			return fmt.Errorf("transfer ack: %w", err)
+		}
+		if err := env.CoreChanOpenConfirm(&p, pk, &c, "transfer", pch); err != nil {
+			return fmt.Errorf("transfer confirm: %w", err)
+		}
+		l.XStage = 4
+		n.P, n.C[cid], n.L[cid] = p, c, l
+		return nil
+	}
 	pch, err := env.ChanOpenTry(&p, pk, &l, a, l.XCChan)
 	if err != nil {
 		return fmt.Errorf("transfer try: %w", err)
@@ -436,7 +463,8 @@ func (w *XWorld) DeliverXfer(n *XNode, cid string) (*env.Packet, *env.RecvResult
 	}
 	n.touchP()
 	p := n.P
-	res := env.Recv(&p, w.P.PApp.IBCKeeper, pk.P)
+	cst := n.C[cid]
+	res := w.netRecv(&p, w.P.PApp.IBCKeeper, &cst, pk.P)
 	if res.Err != nil {
 		debugOnce("DeliverXfer", res.Err)
 		return nil, &res
@@ -456,11 +484,139 @@ func (w *XWorld) AckXfer(n *XNode, cid string) (*env.Ack, error, string) {
 	a := l.XC2P.Acks[0]
 	n.touchC(cid)
 	c := n.C[cid]
-	_, err, pan := env.AckPacket(&c, w.CA.CApp.IBCKeeper, a.P, a.Bytes)
+	_, err, pan := w.netAck(&c, w.CA.CApp.IBCKeeper, &n.P, a.P, a.Bytes)
 	if err != nil || pan != "" {
 		return &a, err, pan
 	}
 	l.XC2P.Acks = l.XC2P.Acks[1:]
 	n.C[cid], n.L[cid] = c, l
 	return &a, nil, ""
+}
+
+// NetMode selects how IBC core is represented: "core" (default) sends the real core messages
+// (MsgConnectionOpen*, MsgChannelOpen*, MsgRecvPacket, MsgAcknowledgement, MsgTimeout) to ibc-go's own
+// message server with Merkle verification answered by the proof oracle (env/core.go); "shim" uses the
+// hand-written stand-in of env/net.go; "diff" executes every packet operation both ways on two
+// branches and requires identical module state and acknowledgements (conformance of the stand-in).
+var NetMode = func() string {
+	if m := os.Getenv("VERIF_NET"); m != "" {
+		return m
+	}
+	return "core"
+}()
+
+var diffStores = map[string][]string{
+	"provider": {"provider", "staking", "slashing", "bank", "distribution", "transfer"},
+	"consumer": {"ccvconsumer", "slashing", "bank", "transfer"},
+}
+
+func sideOf(s *env.State) string {
+	if s.C.App.GetKey("provider") != nil {
+		return "provider"
+	}
+	return "consumer"
+}
+
+func (w *XWorld) diffStates(what string, a, b *env.State) {
+	for _, st := range diffStores[sideOf(a)] {
+		if d := env.DiffKV(env.Dump(a.Ctx, a.C.App, st), env.Dump(b.Ctx, b.C.App, st)); len(d) > 0 {
+			w.Stats.Count("net-diff:DISAGREE:" + what + ":" + st)
+			debugOnce("net-diff "+what+" store "+st, fmt.Errorf("%d keys differ, first %x", len(d), d[0]))
+			return
+		}
+	}
+	w.Stats.Count("net-diff:agree:" + what)
+}
+
+func (w *XWorld) openCore(p, c *env.State, l *env.Link) error {
+	pk, ck := w.P.PApp.IBCKeeper, w.CA.CApp.IBCKeeper
+	if err := env.CoreOpenConnection(p, pk, c, ck, l); err != nil {
+		return err
+	}
+	cch, err := env.CoreChanOpenInit(c, ck, p, ccv.ConsumerPortID, ccv.ProviderPortID, channeltypes.ORDERED, []string{l.CConn}, ccv.Version)
+	if err != nil {
+		return fmt.Errorf("init: %w", err)
+	}
+	l.CChan = cch
+	pch, err := env.CoreChanOpenTry(p, pk, c, ccv.ProviderPortID, ccv.ConsumerPortID, cch, channeltypes.ORDERED, []string{l.PConn}, ccv.Version)
+	if err != nil {
+		return fmt.Errorf("try: %w", err)
+	}
+	l.PChan = pch
+	ch, _ := pk.ChannelKeeper.GetChannel(p.Ctx, ccv.ProviderPortID, pch)
+	if err := env.CoreChanOpenAck(c, ck, p, ccv.ConsumerPortID, cch, pch, ch.Version); err != nil {
+		return fmt.Errorf("ack: %w", err)
+	}
+	if err := env.CoreChanOpenConfirm(p, pk, c, ccv.ProviderPortID, pch); err != nil {
+		return fmt.Errorf("confirm: %w", err)
+	}
+	l.Stage = 4
+	return nil
+}
+
+func keeperOf(w *XWorld, s *env.State) *ibckeeper.Keeper {
+	if sideOf(s) == "provider" {
+		return w.P.PApp.IBCKeeper
+	}
+	return w.CA.CApp.IBCKeeper
+}
+
+func (w *XWorld) netRecv(dst *env.State, k *ibckeeper.Keeper, src *env.State, pkt channeltypes.Packet) env.RecvResult {
+	switch NetMode {
+	case "shim":
+		return env.Recv(dst, k, pkt)
+	case "diff":
+		a, b := dst.Branch(), dst.Branch()
+		ra := env.Recv(&a, k, pkt)
+		rb := env.CoreRecv(&b, k, src, pkt)
+		if (ra.Err == nil) != (rb.Err == nil) || string(ra.Ack) != string(rb.Ack) || ra.Success != rb.Success || (ra.Panic == "") != (rb.Panic == "") {
+			w.Stats.Count("net-diff:DISAGREE:recv-result")
+			debugOnce("net-diff recv", fmt.Errorf("shim err=%v ack=%s / core err=%v ack=%s", ra.Err, ra.Ack, rb.Err, rb.Ack))
+		} else {
+			w.diffStates("recv", &a, &b)
+		}
+		*dst = b
+		return rb
+	}
+	return env.CoreRecv(dst, k, src, pkt)
+}
+
+func (w *XWorld) netAck(s *env.State, k *ibckeeper.Keeper, peer *env.State, pkt channeltypes.Packet, ack []byte) ([]abci.Event, error, string) {
+	switch NetMode {
+	case "shim":
+		return env.AckPacket(s, k, pkt, ack)
+	case "diff":
+		a, b := s.Branch(), s.Branch()
+		_, ea, pa := env.AckPacket(&a, k, pkt, ack)
+		evs, eb, pb := env.CoreAck(&b, k, peer, pkt, ack)
+		if (ea == nil) != (eb == nil) || (pa == "") != (pb == "") {
+			w.Stats.Count("net-diff:DISAGREE:ack-result")
+			debugOnce("net-diff ack", fmt.Errorf("shim err=%v / core err=%v", ea, eb))
+		} else {
+			w.diffStates("ack", &a, &b)
+		}
+		*s = b
+		return evs, eb, pb
+	}
+	return env.CoreAck(s, k, peer, pkt, ack)
+}
+
+func (w *XWorld) netTimeout(s *env.State, k *ibckeeper.Keeper, peer *env.State, peerK *ibckeeper.Keeper, pkt channeltypes.Packet) ([]abci.Event, error, string) {
+	switch NetMode {
+	case "shim":
+		return env.TimeoutPacket(s, k, pkt)
+	case "diff":
+		a, b := s.Branch(), s.Branch()
+		_, ea, pa := env.TimeoutPacket(&a, k, pkt)
+		evs, eb, pb := env.CoreTimeout(&b, k, peer, peerK, pkt)
+		if (ea == nil) != (eb == nil) || (pa == "") != (pb == "") {
+			w.Stats.Count("net-diff:DISAGREE:timeout-result")
+			debugOnce("net-diff timeout", fmt.Errorf("shim err=%v / core err=%v", ea, eb))
+		} else {
+			w.diffStates("timeout", &a, &b)
+		}
+		*s = b
+		return evs, eb, pb
+	}
+	return env.CoreTimeout(s, k, peer, peerK, pkt)
 }
